@@ -40,7 +40,7 @@ ANCHORS = ['pfhedge.nn.modules.hedger:Hedger.compute_hedge',
            'pfhedge.features.features:Variance.get',
            'pfhedge.features.features:Moneyness.get']
 DECIDING = ["hedge.prefix_invariant", "hedge.no_trade_at_maturity", "feature.prefix_invariant"]
-REQUIRED_BRANCHES = ["branch.stepwise", "branch.vectorised", "poison.nan", "poison.scale", "poison.resample", "grad.on", "grad.off"]
+REQUIRED_BRANCHES = ["sibling_hedger_shares_features", "branch.stepwise", "branch.vectorised", "poison.nan", "poison.scale", "poison.resample", "grad.on", "grad.off"]
 
 
 def snapshot(derivative):
@@ -98,6 +98,21 @@ def drv_hedge(ctx, k, rng):
     snap = snapshot(derivative)
     stepwise = hedger.inputs.of(derivative, hedger).is_state_dependent()
     ctx.branch("branch.stepwise" if stepwise else "branch.vectorised")
+    # another hedger built on the same feature objects and evaluated in between (comparing two models on one feature set): whatever it leaves in the
+    # shared features is information about the whole path
+    sib = P.sibling(hedger, rng) if (not bsmodel and rng.random() < 0.3) else None
+    if sib is not None:
+        ctx.branch("sibling_hedger_shares_features")
+
+    def run_sibling():
+        if sib is not None:
+            try:
+                with torch.no_grad():
+                    sib.compute_hedge(derivative, hedge)
+            except ValueError:
+                pass
+
+    run_sibling()
     with torch.set_grad_enabled(grad):
         h0 = hedger.compute_hedge(derivative, hedge).detach().clone()
     n_h = 1 if hedge is None else len(hedge)
@@ -113,6 +128,7 @@ def drv_hedge(ctx, k, rng):
         ctx.branch("poison." + ("scale" if kind.startswith("scale") else kind))
         poison(snap, tc, kind, rng, skip_nan_on_vol=(bsmodel and not stepwise))
         ctx.seen(mon)
+        run_sibling()
         try:
             with torch.set_grad_enabled(grad):
                 h1 = hedger.compute_hedge(derivative, hedge).detach()
